@@ -77,12 +77,12 @@ def escapeDebugChar (c : Char) : List Char :=
 def showStrDebug (s : List Char) : List Char := '"' :: s.flatMap escapeDebugChar ++ ['"']
 
 def showDirective : Directive → List Char
-  | .orig a => ".orig x".toList ++ hexUpper 4 a.toNat
-  | .fill v => ".fill ".toList ++ showPCOffU v
-  | .blkw n => ".blkw ".toList ++ showUOff n
-  | .stringz s => ".stringz ".toList ++ showStrDebug s
-  | .end_ => ".end".toList
-  | .external l => ".external ".toList ++ l.name
+  | .orig a => ['.', 'o', 'r', 'i', 'g', ' ', 'x'] ++ hexUpper 4 a.toNat
+  | .fill v => ['.', 'f', 'i', 'l', 'l', ' '] ++ showPCOffU v
+  | .blkw n => ['.', 'b', 'l', 'k', 'w', ' '] ++ showUOff n
+  | .stringz s => ['.', 's', 't', 'r', 'i', 'n', 'g', 'z', ' '] ++ showStrDebug s
+  | .end_ => ['.', 'e', 'n', 'd']
+  | .external l => ['.', 'e', 'x', 't', 'e', 'r', 'n', 'a', 'l', ' '] ++ l.name
 
 def showKind : StmtKind → List Char
   | .instr i => showInstr i
